@@ -52,21 +52,21 @@ WORKERS = min(8, vlib.NCPU)
 
 # --------------------------------------------------------------------------- generation
 
-def write_pick(dirpath, seed, mod):
+def write_pick(dirpath, seed, mod, modl):
     p = os.path.join(dirpath, "MetricsQueryPick.tla")
     with open(p, "w") as f:
         f.write("--------------------------- MODULE MetricsQueryPick ---------------------------\n"
-                "PickSeed == %d\nPickMod == %d\n"
-                "=============================================================================\n" % (seed, mod))
+                "PickSeed == %d\nPickMod == %d\nPickModL == %d\n"
+                "=============================================================================\n" % (seed, mod, modl))
     return p
 
 
-def tlc_generate_pick(cfg, seed, mod, timeout=1500):
+def tlc_generate_pick(cfg, seed, mod, modl=20, timeout=1500):
     """vlib.tlc_generate stages spec/ and then copies extra_files over it: the seed-derived
     MetricsQueryPick.tla replaces the default one."""
     sc = vlib.scratch("c09pick")
     try:
-        p = write_pick(sc, seed, mod)
+        p = write_pick(sc, seed, mod, modl)
         return vlib.tlc_generate("Gen_MetricsQuery", cfg, timeout=timeout, extra_files=[p])
     finally:
         vlib.rmtree(sc)
@@ -232,6 +232,11 @@ def fmt_ident(ident):
 
 # --------------------------------------------------------------------------- one case on the real engine
 
+class EnginePanic(Exception):
+    """the engine code panicked inside a query (the driver recovers it so that it can be reported); the query it was running
+    stays registered as running, so the process is not used any further: the case ends with this violation"""
+
+
 def run_case(binary, case):
     """Replays one (scenario, layout history) pair.  Returns dict(fails=[(key, detail, query text, stage)], n=queries run,
     classes=set of (class, stagekind) compared with a non-empty expectation)."""
@@ -263,9 +268,17 @@ def run_case(binary, case):
         tm = threading.Timer(60, dump)
         tm.start()
         try:
-            return dr.ok("mquery", **kw)
+            o = dr.cmd("mquery", **kw)
         finally:
             tm.cancel()
+        if not o.get("ok"):
+            err = str(o.get("err"))
+            if err.startswith("PANIC"):
+                # the engine code panicked while answering (the driver recovers it; the server's handler would not answer)
+                where = [l.strip() for l in err.splitlines() if "/pkg/" in l][:2]
+                raise EnginePanic(err.splitlines()[0] + " at " + " <- ".join(where))
+            raise vlib.Infra("driver op mquery failed: %s" % err[:2000])
+        return o.get("res")
 
     ts_of = {t: T0 + t * step for t in range(nt)}
     grid_ts = {v: k for k, v in ts_of.items()}
@@ -284,6 +297,7 @@ def run_case(binary, case):
         if r["failed"] != 0 or r["ok"] != len(rows):
             fails.append(("C09:%s:ingest-rejected" % univ, "otsdb put accepted %s of %d" % (r, len(rows)), "", "ingest"))
         ingested.update(rows)
+        open_seg.update(rows)
 
     def complete_ts():
         return [t for t in range(nt) if all((i, t) in ingested for i in range(len(series)))]
@@ -322,18 +336,22 @@ def run_case(binary, case):
             fails.extend(out)
         return out
 
-    def all_visible():
+    open_seg = set()        # datapoints ingested into the currently open segment
+
+    def rotated_visible(points):
+        """Is the segment that was just size-rotated known to the query side?  Asked with single-sample windows (the last
+        sample of every series in that segment): such an answer comes from exactly one place, so it is independent of how
+        the engine joins the parts of a series - a defect in the joining shows up in the checks, not as a time-out here."""
         dr.ok("mtagsflush")
-        for name in sorted(set(x["name"] for x in series)):
-            res = dr.ok("mquery", promql=name, start=T0 - step, end=T0 + (nt + 1) * step, step=step)
-            got = set()
-            for gid, pts in res.get("series", {}).items():
-                nm, labels = parse_gid(gid)
-                for p in pts:
-                    got.add((nm, lkey(labels), p[0]))
-            for (i, t) in ingested:
-                if series[i]["name"] == name and (name, lkey(series[i]["labels"]), ts_of[t]) not in got:
-                    return False
+        last = {}
+        for (i, t) in points:
+            last[i] = max(t, last.get(i, -1))
+        for i, t in sorted(last.items()):
+            res = mquery(promql=series[i]["name"], start=ts_of[t], end=ts_of[t], step=step)
+            want = (series[i]["name"], lkey(series[i]["labels"]))
+            if not any(parse_gid(gid)[0] == want[0] and lkey(parse_gid(gid)[1]) == want[1] and any(p[0] == ts_of[t] for p in pts)
+                       for gid, pts in res.get("series", {}).items()):
+                return False
         return True
 
     def subset(n):
@@ -357,10 +375,12 @@ def run_case(binary, case):
             elif a["a"] == "segrotate":
                 dr.ok("msizerotate", block_bytes=1, seg_bytes=1)
                 sized[0] = True
-                # the rotated segment becomes query-visible through the 5 s metadata refresh loop: poll until every
-                # ingested sample is returned by the plain selector of its metric (40 s without success is an infrastructure error: timing dependent)
+                just_rotated = set(open_seg)
+                open_seg.clear()
+                # the rotated segment becomes query-visible through the 5 s metadata refresh loop: poll until the last sample of
+                # every series in it is returned (40 s without success is an infrastructure error: timing dependent)
                 t_end = time.time() + 40
-                while not all_visible():
+                while not rotated_visible(just_rotated):
                     if time.time() > t_end:
                         # timing dependent (5 s refresh loop on a possibly overloaded machine): never a verdict
                         raise vlib.Infra("size-rotated metrics segment not query-visible 40 s after the rotation (machine load?)")
@@ -372,6 +392,7 @@ def run_case(binary, case):
                 dr = vlib.Driver(binary, env=env, stderr_path=errlog)
                 dr.ok("init", dir=d, wait_ms=400)
                 sized[0] = False
+                open_seg.clear()
                 check("after-restart-%d" % nstage, "restarted", subset(case["nsub"]))
         put(pending)
         full = runnable if case["full"] else subset(case["nsub"] * 2)
@@ -384,6 +405,11 @@ def run_case(binary, case):
         sized[0] = False
         check("final-rotated", "rotated", full)
         check("final-rotated-tight", "rotated", subset(max(8, case["nsub"] // 3)), window="tight")
+    except EnginePanic as e:
+        qast = [q["ast"] for q in queries if q["text"] == cur["q"]]
+        cls = query_class(qast[0], nkeys) if qast else "probe"
+        fails.append(("C09:%s:%s:panic" % (univ, cls), "[%s, step=%d, layout %s] %s :: the engine panicked while answering: %s" % (
+            cur["stage"], step, [a["a"] for a in hist if a["a"] != "ingest"], cur["q"], e), cur["q"] if qast else "", cur["stage"] or "?"))
     except vlib.DriverDead as e:
         if e.kind == "hang" or cur["dumped"]:
             keep = os.path.join(vlib.SCRATCH_ROOT, "c09-stall-%d.log" % case["idx"])
@@ -420,15 +446,21 @@ def run(chk):
     # ---- model
     # (coverage was run once per config while building the check: no vacuous action; it doubles the TLC time, so the
     #  quick tier runs without it and the thorough tier with it)
-    r = vlib.run_tlc("MC_MetricsQuery", "MC_MetricsQuery.cfg" if quick else "MC_MetricsQuery_deep.cfg", workers=WORKERS,
-                     timeout=1500, coverage=not quick)
+    # the four model runs are independent: run them side by side (wall time of the quick tier)
+    mw = max(2, WORKERS // 2)
+    jobs = [("MC_MetricsQuery.cfg" if quick else "MC_MetricsQuery_deep.cfg", 1500, not quick),
+            ("MC_MetricsQuery_X.cfg", 900, False),
+            ("MC_MetricsQuery_Lq.cfg" if quick else "MC_MetricsQuery_L.cfg", 1200, False),
+            ("MC_MetricsQuery_noreg.cfg", 600, False)]
+    r, rx, rl, r2 = vlib.pmap(lambda j: vlib.run_tlc("MC_MetricsQuery", j[0], workers=mw, timeout=j[1], coverage=j[2]), jobs, workers=4)
     vlib.tlc_must_hold(r, "MetricsQuery exhaustive")
     chk.add_tlc("MC_MetricsQuery", r, "TypeOK NoLossNoDup TagsCover LayoutInvariance(Sel) AvgIsSumOverCount MinLeAvgLeMax ByAllIsIdentity "
-                "WithoutIsByComplement SelectExact BinaryMatchesLabelSets; universe H, NT=%d, MaxOps=%d" % ((2, 2) if quick else (3, 3)))
-    rx = vlib.run_tlc("MC_MetricsQuery", "MC_MetricsQuery_X.cfg", workers=WORKERS, timeout=900)
+                "WithoutIsByComplement SelectExact BinaryMatchesLabelSets; universe H, NT=%d, MaxOps=%d" % ((2, 2) if quick else (2, 3)))
     vlib.tlc_must_hold(rx, "MetricsQuery exhaustive (missing labels)")
     chk.add_tlc("MC_MetricsQuery_X", rx, "same invariants on the universe with missing labels")
-    r2 = vlib.run_tlc("MC_MetricsQuery", "MC_MetricsQuery_noreg.cfg", workers=WORKERS, timeout=600)
+    vlib.tlc_must_hold(rl, "MetricsQuery exhaustive (long series)")
+    chk.add_tlc("MC_MetricsQuery_L", rl, "NoLossNoDup TagsCover LayoutInvariance(Sel) with 12 samples per series: every split of a series over blocks, "
+                "segments and process lives with <= 2 layout operations")
     if "LayoutInvarianceSel" not in r2.violated:
         raise vlib.Infra("model sensitivity lost: RegisterPerSegment=FALSE no longer violates LayoutInvarianceSel")
     chk.cov["model_sensitivity"] = "RegisterPerSegment=FALSE violates LayoutInvarianceSel (expected)"
@@ -439,11 +471,26 @@ def run(chk):
 def run_binding(chk, quick):
     # ---- behaviours
     modH, modX, modS, modD = (37, 1, 1, 1) if quick else (5, 1, 1, 1)      # the small universes are emitted completely
-    scenH, gh = tlc_generate_pick("Gen_MetricsQuery_scenH.cfg", chk.seed, modH)
-    scenX, gx = tlc_generate_pick("Gen_MetricsQuery_scenX.cfg", chk.seed, modX)
-    scenS, gs = tlc_generate_pick("Gen_MetricsQuery_scenS.cfg", chk.seed, modS)
-    scenD, gd = tlc_generate_pick("Gen_MetricsQuery_scenD.cfg", chk.seed, modD)
-    lays, gl = vlib.tlc_generate("Gen_MetricsQuery", "Gen_MetricsQuery_layout.cfg" if quick else "Gen_MetricsQuery_layout_deep.cfg", timeout=1500)
+    # (generation runs are single-worker TLC runs, independent of each other: side by side)
+    gens = [("Gen_MetricsQuery_scenH.cfg", modH, 20), ("Gen_MetricsQuery_scenX.cfg", modX, 20), ("Gen_MetricsQuery_scenS.cfg", modS, 20),
+            ("Gen_MetricsQuery_scenD.cfg", modD, 20),
+            ("Gen_MetricsQuery_layout.cfg" if quick else "Gen_MetricsQuery_layout_deep.cfg", 1, 20),
+            # long-series family: few series, 12 (thorough: also 20) samples each, histories that split them at every point
+            ("Gen_MetricsQuery_scenL.cfg", 11 if quick else 3, 20), ("Gen_MetricsQuery_layoutL.cfg", 1, 20 if quick else 4)]
+    if not quick:
+        gens += [("Gen_MetricsQuery_scenL20.cfg", 7, 20), ("Gen_MetricsQuery_layoutL20.cfg", 1, 40)]
+    out = vlib.pmap(lambda g: tlc_generate_pick(g[0], chk.seed, g[1], modl=g[2]), gens, workers=len(gens))
+    (scenH, gh), (scenX, gx), (scenS, gs), (scenD, gd), (lays, gl), (scenL, gL), (laysL, glL) = out[:7]
+    chk.add_tlc("Gen_MetricsQuery_scenL", gL, "scenario generation, long series NT=12 (%d)" % len(scenL))
+    chk.add_tlc("Gen_MetricsQuery_layoutL", glL, "layout histories for 12 samples per series (%d after the seed filter)" % len(laysL))
+    if not quick:
+        (scenL20, gL20), (laysL20, glL20) = out[7:9]
+        chk.add_tlc("Gen_MetricsQuery_scenL20", gL20, "scenario generation, long series NT=20 (%d)" % len(scenL20))
+        chk.add_tlc("Gen_MetricsQuery_layoutL20", glL20, "layout histories for 20 samples per series (%d after the seed filter)" % len(laysL20))
+        scenL, laysL = scenL + scenL20, laysL + laysL20
+    if not scenL or not laysL:
+        raise vlib.Infra("no long-series behaviours generated (scenarios=%d layouts=%d)" % (len(scenL), len(laysL)))
+    lays = lays + laysL
     chk.add_tlc("Gen_MetricsQuery_scenH", gh, "scenario generation, homogeneous universe (%d scenarios after the seed filter)" % len(scenH))
     chk.add_tlc("Gen_MetricsQuery_scenX", gx, "scenario generation, missing-label universe (%d)" % len(scenX))
     chk.add_tlc("Gen_MetricsQuery_scenS", gs, "scenario generation, suffix-key universe (%d)" % len(scenS))
@@ -453,15 +500,17 @@ def run_binding(chk, quick):
         raise vlib.Infra("no behaviours generated (H=%d X=%d S=%d layouts=%d)" % (len(scenH), len(scenX), len(scenS), len(lays)))
 
     rnd = random.Random(chk.seed)
-    nH, nX, nS, nD = (18, 6, 4, 3) if quick else (260, 40, 20, 12)
+    nH, nX, nS, nD, nL = (18, 6, 4, 3, 14) if quick else (260, 40, 20, 12, 120)
     lay_by_n = {}
     for l in lays:
-        lay_by_n.setdefault(l["n"], []).append(l)
+        lay_by_n.setdefault((l["n"], l["nt"]), []).append(l)
     for n in lay_by_n:
         lay_by_n[n].sort(key=lambda l: json.dumps(l, sort_keys=True))
 
     def pick_layout(n, i, want_seg):
-        pool = lay_by_n[n]
+        pool = lay_by_n.get(n)
+        if not pool:
+            raise vlib.Infra("no layout history for %d series x %d timestamps" % n)
         # segment rotations cost >= 5 s wall each (metadata refresh): ration them
         pool2 = [l for l in pool if any(a["a"] == "segrotate" for a in l["hist"]) == want_seg and
                  (want_seg or l["nops"] >= 1 or i % 7 == 0)]
@@ -470,14 +519,14 @@ def run_binding(chk, quick):
     cases = []
     idx = 0
     for univ, scens, n, nsub in (("H", scenH, nH, 48 if quick else 120), ("X", scenX, nX, 40), ("S", scenS, nS, 40),
-                                  ("D", scenD, nD, 40)):
+                                  ("D", scenD, nD, 40), ("L", scenL, nL, 64)):
         scens = sorted(scens, key=lambda s: json.dumps(s["idx"]) + s["grid"])
         chosen = vlib.sample(scens, n, chk.seed * 31 + len(univ))
         if len(chosen) < n:
             chosen = chosen + [rnd.choice(scens) for _ in range(n - len(chosen))]
         for j, sc in enumerate(chosen):
             want_seg = (idx % (6 if quick else 4) == 3)
-            lay = pick_layout(len(sc["series"]), idx, want_seg)
+            lay = pick_layout((len(sc["series"]), len(sc["values"][0])), idx, want_seg)
             cases.append({"idx": idx, "univ": univ, "scen": sc, "hist": lay["hist"], "order": lay["order"],
                           "step": rnd.choice([1, 5, 10, 60]), "procs": rnd.choice([0, 0, 1, 2, 4]),
                           "seed": chk.seed * 7919 + idx, "nsub": nsub, "full": univ != "H" or not quick or j % 2 == 0})
@@ -506,7 +555,7 @@ def run_binding(chk, quick):
                 "layout": [a["a"] if a["a"] != "ingest" else "i%d@%d" % (a["i"], a["t"]) for a in c0["hist"]],
                 "queries": [{"promql": q["text"], "expect_t0": q["expect"][0]} for q in c0["scen"]["queries"][:4]]})
     chk.cov["queries_run"] = nq
-    chk.cov["cases"] = {"H": nH, "X": nX, "S": nS, "D": nD}
+    chk.cov["cases"] = {"H": nH, "X": nX, "S": nS, "D": nD, "L": nL}
     chk.assumptions += [
         "every sample lies on the step grid and every series has exactly one sample per evaluation timestamp that is compared "
         "(timestamps whose ingest round is incomplete at a stage are not compared): lookback/staleness never decides an answer",
